@@ -3,6 +3,7 @@
 set -e
 cd "$(dirname "$0")"
 export CARGO_NET_OFFLINE=true
+cargo build --offline --release --manifest-path probe/Cargo.toml --target-dir .build/probe
 python3 tools/extract.py
 (cd lean && lake build Chess chessdrv)
 cargo build --offline --release --manifest-path harness/Cargo.toml --target-dir .build/harness
